@@ -1,6 +1,8 @@
 \* registration protocol, code before the fix (pointer difference): must be refuted; the rapid-reload finding tolerated
 CONSTANTS
   Exprs = {"e1", "e2", "e3"}
+  MaxMult = 1
+  MultisetDiff = FALSE
   MaxLoads = 3
   DiffByValue = FALSE
   GlobalUnmanage = TRUE
